@@ -12,7 +12,7 @@ struct C15 : Harness {
     rc::Gen<Program> gen() override {
         return rc::gen::exec([]() {
             HistGen g;
-            g.o.lifecycle = true; g.o.invalid = *chance(30); g.o.midstream = true;
+            g.o.lifecycle = true; g.o.invalid = *chance(30); g.o.midstream = true; g.o.allocfail = true;
             int nslots = *irange(1, 6);
             for (int i = 0; i < nslots; ++i) {
                 int kind = *rc::gen::element((int)C128, (int)C64, (int)CM, (int)P128, (int)P64, (int)PM);
